@@ -292,6 +292,7 @@ func (c *Client) dial(creds grpccredentials.TransportCredentials, dopts ...grpc.
 	}
 
 	opts = append(opts, c.cfg.DialOptions...)
+	opts = append(opts, SimExtraDialOptions...) // C19 harness patch: see the variable's comment
 
 	dctx := c.ctx
 	if c.cfg.DialTimeout > 0 {
@@ -306,6 +307,14 @@ func (c *Client) dial(creds grpccredentials.TransportCredentials, dopts ...grpc.
 	}
 	return conn, nil
 }
+
+// SimExtraDialOptions (C19 harness patch, the ONLY change to this file besides
+// the line in dial that appends it): dial options added to every client. The
+// harness sets it to a simnet context dialer (+ a reconnect back-off without
+// wall-clock jitter) so that a client created by the UNMODIFIED
+// cluster.getClient of easegress (whose clientv3.Config has no DialOptions)
+// connects to the simulated etcd server instead of the real network.
+var SimExtraDialOptions []grpc.DialOption
 
 func authority(endpoint string) string {
 	spl := strings.SplitN(endpoint, "://", 2)
